@@ -2107,7 +2107,7 @@ theorem link_addEntry {IR : List Loc} {IS : List Path} {g : Grammar.GState} {w w
   unfold addEntry at hw
   split at hw
   · cases hw
-  · simp only [ha, truthyTime, Bool.false_eq_true, if_false] at hw
+  · simp only [ha] at hw
     split at hw
     · rename_i r' hm
       injection hw with hw
@@ -2116,7 +2116,7 @@ theorem link_addEntry {IR : List Loc} {IS : List Path} {g : Grammar.GState} {w w
       rw [hx] at hx1
       injection hx1 with hx1
       subst hx1
-      injection hfx with hfx
+      have hfx := addEntryAt_ok hfx
       subst hfx
       refine ⟨L.ginv, ?_, ?_, ?_, ?_, ?_, ?_, ?_, ?_⟩
       · intro hph; simp only; rw [hend]; exact L.notEnded hph
@@ -2150,6 +2150,7 @@ theorem link_addEntry {IR : List Loc} {IS : List Path} {g : Grammar.GState} {w w
         · subst hll; exact L.histR l (by rw [hx]; rfl)
         · simp only at hl; rw [hother l hll] at hl; exact L.histR l hl
       · intro q hq; simp only at hq; rw [hhdr] at hq; exact L.histS q hq
+    · cases hw
     · cases hw
 
 /-! ### every accepted event preserves the invariant -/
